@@ -17,7 +17,7 @@ def run(ctx):
                      "expiry and availability at now + runtime == deadline, slower strategy chosen while a faster one exists; plus "
                      "natural histories; monitor: cancellations == hopeless offered requests in order, no member of a batch with "
                      "now + runtime > deadline, no hopeless request placed; distinct/non-trivial as in C15")
-    dist_all = {}
+    dist_all, groups = {}, []
     for mode, n in (("tight", 130 if quick else 2000), ("natural", 70 if quick else 1000)):
         hs, impls = c15.generate(ctx, n, size, mode)
         c15.strip(hs, impls)
@@ -36,14 +36,9 @@ def run(ctx):
         dist["offered_exactly_tight"] = tight
         dist["offered_one_us_short"] = short
         dist_all[mode] = dist
-        stream = "S-cw-" + mode + "(C12)"
         if mode == "tight":
-            ctx.sample({"stream": stream, "history": hs[0], "implementation": c15.expected(impls[0])})
-        try:
-            c15.correspondence(ctx, hs, impls, stream)
-        except core.ModelEvalError as e:
-            ctx.broken.append({"kind": "correspondence", "name": stream, "detail": str(e)[-600:]})
-        c15.monitors(ctx, hs, impls, stream, once=True)
+            ctx.sample({"stream": "S-cw(C12)", "history": hs[0], "implementation": c15.expected(impls[0])})
+        groups.append((mode, hs, impls))
     ctx.cov["input_distribution"] = dist_all
-    c15.run_corpus(ctx, "S-cw-corpus(C12)")
+    c15.evaluate(ctx, groups, "S-cw(C12)")
     return built
